@@ -313,7 +313,7 @@ class FnShape:
     def stmt_end(self, k):
         """offset just after the ';' (or block '}' ) that ends the statement containing token k."""
         toks = self.toks
-        m = k
+        m = k + 1
         while m < len(toks):
             tt = toks[m]
             if tt.kind == "punct":
@@ -379,6 +379,8 @@ def weave_fn(text, directives, canary=False):
                 pre = ","
             add(toks[last].end, pre + "\n" + d.body + "\n", d, order=1)
             has_spec = True
+        elif d.kind == "loop" and len(d.arg.split()) > 1 and d.arg.split()[1] == "forname" and canary:
+            pass
         elif d.kind == "loop":
             parts = d.arg.split()
             n = int(parts[0])
@@ -394,6 +396,12 @@ def weave_fn(text, directives, canary=False):
                 add(toks[bc].start, "\n" + d.body + "\n", d)
             elif where == "attr":
                 add(toks[kw].start, d.body + "\n", d)
+            elif where == "forname":
+                # Verus ghost-iterator name: `for x in EXPR` -> `for x in NAME: EXPR` (spec-only binding)
+                k = kw
+                while toks[k].text != "in":
+                    k += 1
+                add(toks[k].end, f" {parts[2]}:", d)
             else:
                 raise Unsupported(f"#loop position {where}")
         elif d.kind in ("before", "after", "after-text"):
